@@ -1,0 +1,40 @@
+//go:build verif
+
+// Contracts for the JWT claim checks (checked by /verif/bin/govc; comment-only, never compiled into a normal build).
+package jwt
+
+// ---------------------------------------------------------------- C07 / C15: NumericDate claims
+// num_ok / num_val: whether a claim value is a usable number and which whole second it denotes. A float64 is always
+// usable and is truncated toward zero; an int64 is itself; a json.Number is read as an integer if possible, else as
+// a float that is truncated.
+//@ spec func num_ok(v any) bool = typeis(v, float64) || typeis(v, int64) || (typeis(v, json.Number) && (jn_int_ok(unbox(v, json.Number)) || jn_float_ok(unbox(v, json.Number))))
+//@ spec func num_val(v any) int = typeis(v, float64) ? trunc(unbox(v, float64)) : (typeis(v, int64) ? unbox(v, int64) : (jn_int_ok(unbox(v, json.Number)) ? jn_int(unbox(v, json.Number)) : trunc(jn_float(unbox(v, json.Number)))))
+//@ func (MapClaims).toInt64
+//@   ensures [C07.numeric-date-decoding] result1 == num_ok(m[claim]) && (result1 ==> result0 == num_val(m[claim])) && (!result1 ==> result0 == 0)
+
+//@ func verifyExp
+//@   pure
+//@   ensures [C07.exp-comparison] result == (exp == 0 ? !required : now <= exp)
+//@ func verifyIat
+//@   pure
+//@   ensures [C07.iat-comparison] result == (iat == 0 ? !required : now >= iat)
+//@ func verifyNbf
+//@   pure
+//@   ensures [C07.nbf-comparison] result == (nbf == 0 ? !required : now >= nbf)
+
+//@ func (MapClaims).VerifyExpiresAt
+//@   ensures [C07.exp-comparison] result == (num_ok(m["exp"]) ? (num_val(m["exp"]) == 0 ? !req : cmp <= num_val(m["exp"])) : !req)
+//@ func (MapClaims).VerifyIssuedAt
+//@   ensures [C07.iat-comparison] result == (num_ok(m["iat"]) ? (num_val(m["iat"]) == 0 ? !req : cmp >= num_val(m["iat"])) : !req)
+//@ func (MapClaims).VerifyNotBefore
+//@   ensures [C07.nbf-comparison] result == (num_ok(m["nbf"]) ? (num_val(m["nbf"]) == 0 ? !req : cmp >= num_val(m["nbf"])) : !req)
+
+// Valid: a claim set is accepted only if "now" (TimeFunc, whole seconds) is not after exp and not before iat / nbf,
+// for each of these claims that is present with a non-zero value.
+//@ func (*ValidationError).valid
+//@   requires e != nil
+//@   ensures result == (e.Errors == 0)
+//@ func (MapClaims).Valid
+//@   let now = call(TimeFunc).Unix()
+//@   ensures [C07.jwt-claims-window] result == nil ==> (num_ok(m["exp"]) && num_val(m["exp"]) != 0 ==> now <= num_val(m["exp"])) && (num_ok(m["iat"]) && num_val(m["iat"]) != 0 ==> now >= num_val(m["iat"])) && (num_ok(m["nbf"]) && num_val(m["nbf"]) != 0 ==> now >= num_val(m["nbf"]))
+//@   ensures [C07.jwt-claims-window] result != nil ==> typeis(result, *ValidationError) && ((num_ok(m["exp"]) && num_val(m["exp"]) != 0 && now > num_val(m["exp"])) || (num_ok(m["iat"]) && num_val(m["iat"]) != 0 && now < num_val(m["iat"])) || (num_ok(m["nbf"]) && num_val(m["nbf"]) != 0 && now < num_val(m["nbf"])))
